@@ -270,6 +270,7 @@ structure St where
   seenCopy : Bool
   -- run level
   stopped : Option String
+  errPending : Bool                           -- an error was recorded without stopping (get_input_errors() > 0)
   simNo : Nat
   unsignedLoop : Bool
 
@@ -277,7 +278,8 @@ def St.init (unsignedLoop : Bool) : St :=
   { maps := .const [], next := 0, prov := [], trace := [],
     del := .const ⟨false, []⟩, copies := .const [], cells := none, mixes := .const [],
     use := .const ⟨false, -1⟩, save := .const ⟨false, 0, 0⟩, newSet := .const [],
-    seenKinetics := false, seenCopy := false, stopped := none, simNo := 0, unsignedLoop := unsignedLoop }
+    seenKinetics := false, seenCopy := false, stopped := none, errPending := false, simNo := 0,
+    unsignedLoop := unsignedLoop }
 
 /-- the only place where `maps` changes -/
 def St.exec (s : St) (op : SOp) : St := { s with maps := applySOp s.maps op, trace := op :: s.trace }
@@ -415,7 +417,10 @@ def tidyKinetics (s : St) : St :=
       | none => s) s
   else s
 
-def tidyModel (s : St) : St := tidyKinetics (tidySS (tidyPP (tidyGas s)))
+/-- ends with "Calculations terminating due to input errors." when an error is on record -/
+def tidyModel (s : St) : St :=
+  let s := tidyKinetics (tidySS (tidyPP (tidyGas s)))
+  if s.errPending then s.stop "inputerrors" else s
 
 /-! ### initial calculations -/
 
@@ -556,6 +561,8 @@ def doMixes (s : St) : St :=
   let s := mixOrder.foldl (fun s k =>
     (s.mixes k).foldl (fun s (x : Int × Int × List Int) =>
       let comps := " ".intercalate (x.2.2.map fun c => tokOf s k c)
+      -- cxxSolution mixing constructor: a missing solution is an error that does not stop the run
+      let s := if k = .solution && x.2.2.any (fun c => (s.find k c).isNone) then { s with errPending := true } else s
       let (s, tok) := s.fresh s!"emix {k.name} {s.simNo} {comps}"
       (s.exec (.put k x.1 (calcEntry tok x.1))).exec (.copies k x.1 x.2.1)) s) s
   { s with mixes := .const [] }
@@ -594,7 +601,7 @@ def runSim (s : St) (blocks : List Block) : St :=
 
 /-- one `RunString` call: simulations until one stops -/
 def runCall (s : St) (sims : List (List Block)) : St :=
-  sims.foldl runSim { s with stopped := none, simNo := 0 }
+  sims.foldl runSim { s with stopped := none, errPending := false, simNo := 0 }
 
 /-- entries that `DUMP -all` shows: (kind, number, content token) in dump order -/
 def visible (ms : Maps) : List (Kind × Int × Nat) :=
